@@ -1,7 +1,65 @@
 import GoawkModel.Basic
-/-! Line-protocol handler for property C09: one request line (already split into words, without the leading `c09`) → one answer line. -/
-namespace GoawkModel.Drv.C09
+import GoawkModel.C09
+import GoawkModel.C09Digits
+import GoawkModel.C09Spec
+/-!
+Line-protocol handler for property C09.
 
-def handle (_args : List String) : String := "unimplemented"
+* `sprintf <chars 0|1> <fmt hex> (<isStr 0|1>:<str hex>:<float bits, 16 hex digits>)*`
+      → `ok <hex>` | `err noverb` | `err badverb <code>` | `err argcount <got> <expected>` | `unmodelled <why>`
+* `cfmt <chars 0|1> <flag chars hex> <width | -> <precision | -> <verb code> <arg>`   (width/precision as resolved integers; a
+  negative width/precision stands for a negative `*` argument)
+      → `ok <hex>` | `outside` (not a combination ISO C defines) | `none`
+* `numtostr <ofmt hex> <bits>` → like `sprintf`
+* `table` → the generated verb table as text
+-/
+namespace GoawkModel.Drv.C09
+open GoawkModel GoawkModel.C09
+
+def hexNat (s : String) : Option Nat :=
+  s.toList.foldlM (fun acc c => (hexVal c).map (fun v => acc * 16 + v)) 0
+
+def parseArg (s : String) : Option Arg :=
+  match s.splitOn ":" with
+  | [k, h, b] =>
+    match fromHex h, hexNat b with
+    | some bs, some bits => some ⟨k == "1", bs, ofBits bits⟩
+    | _, _ => none
+  | _ => none
+
+def renderRes : Res → String
+  | .ok b => "ok " ++ toHex b
+  | .err .noVerb => "err noverb"
+  | .err (.badVerb c) => "err badverb " ++ toString c.toNat
+  | .err (.argCount g e) => "err argcount " ++ toString g ++ " " ++ toString e
+  | .unmodelled w => "unmodelled " ++ w.replace " " "_"
+
+def optInt (s : String) : Option (Option Int) :=
+  if s == "-" then some none else (s.toInt?).map some
+
+def handle (args : List String) : String :=
+  match args with
+  | "sprintf" :: chars :: fmt :: rest =>
+    match fromHex fmt, rest.mapM parseArg with
+    | some f, some as => renderRes (awkSprintf exactGen (chars == "1") f as)
+    | _, _ => "bad-request"
+  | ["cfmt", chars, flags, w, p, verb, arg] =>
+    match fromHex flags, optInt w, optInt p, verb.toNat?, parseArg arg with
+    | some fc, some w, some p, some v, some a =>
+      let sp := resolveSpec (goFlags fc) w p (UInt8.ofNat v)
+      if !inCDomain sp then "outside" else
+      match awkConvert (chars == "1") sp.verb a with
+      | none => "none"
+      | some ca =>
+        match cFormat exactGen sp ca with
+        | some b => "ok " ++ toHex b
+        | none => "none"
+    | _, _, _, _, _ => "bad-request"
+  | ["numtostr", ofmt, bits] =>
+    match fromHex ofmt, hexNat bits with
+    | some f, some b => renderRes (numToStr exactGen f (ofBits b))
+    | _, _ => "bad-request"
+  | ["table"] => Generated.C09Verbs.verbTableText
+  | _ => "bad-request"
 
 end GoawkModel.Drv.C09
